@@ -66,9 +66,9 @@ def gen_history(rng):
         elif r < 0.65:
             ops.append(["use_or_create", rng.choice(NAMES)])
         elif r < 0.85:
-            kind = rng.choice(["plain", "plain", "args", "layer", "twice"])
+            kind = rng.choice(["plain", "plain", "args", "layer", "twice", "args2"])
             op = ["cleanup", kind, cid]
-            cid += 1
+            cid += 2 if kind == "args2" else 1
             if kind == "layer":
                 op.append(rng.choice(["testrun"] + LAYERS))
             ops.append(op)
@@ -262,6 +262,15 @@ def _run_history(ops, raising, stats=None):
                     elif kind == "args":
                         context.add_cleanup(f, c, key=c)
                         model.stack[-1]["cleanups"].append(c)
+                    elif kind == "args2":
+                        # ONE function registered twice with different arguments: two cleanups
+                        def shared(x):
+                            log.append(x)
+                            if x in raising:
+                                raise CleanupBoom("cleanup %d" % x)
+                        context.add_cleanup(shared, c)
+                        context.add_cleanup(shared, c + 1)
+                        model.stack[-1]["cleanups"].extend([c, c + 1])
                     elif kind == "layer":
                         fr = model.frame_for_layer(op[3])
                         try:
